@@ -44,7 +44,7 @@ fn make_round(k: u64) -> Vec<ProbeStatus> {
 }
 
 /// `Some(description)` if the snapshot is not a whole number of consecutive rounds
-fn check_snapshot(st: &State) -> Option<String> {
+fn check_snapshot(st: &State, floor: u64) -> Option<String> {
     let n = st.round_count(FlowId(0));
     let hops = st.hops();
     if n == 0 {
@@ -72,6 +72,9 @@ fn check_snapshot(st: &State) -> Option<String> {
         }
         latest = Some(j);
         // the oldest round still counted must be j - n + 1 (consecutive rounds since the last clear)
+        if (n as u64) <= j + 1 && j + 1 - (n as u64) < floor {
+            return Some(format!("snapshot taken after clear() returned still holds round {} (a round applied before that clear; clear floor {floor}): {n} rounds ending at round {j}", j + 1 - n as u64));
+        }
         if (n as u64) > j + 1 || best_ns != rtt_ns(j + 1 - n as u64, h) {
             return Some(format!("hop {}: {n} rounds ending at round {j} but best rtt {best_ns} (rounds not consecutive / mixture across a clear)", h + 1));
         }
@@ -86,17 +89,21 @@ pub fn run(rng: &mut Rng, thorough: bool, _corpus: &[String]) -> Run {
     let stop = Arc::new(AtomicBool::new(false));
     let checked = Arc::new(AtomicU64::new(0));
     let clears = Arc::new(AtomicU64::new(0));
+    // rounds fully applied so far / a lower bound on the oldest round any later snapshot may hold
+    let applied = Arc::new(AtomicU64::new(0));
+    let floor = Arc::new(AtomicU64::new(0));
     let failures: Arc<Mutex<Vec<String>>> = Arc::new(Mutex::new(vec![]));
     let seed = rng.next();
     let started = SystemTime::now();
     std::thread::scope(|sc| {
         for r in 0..4u64 {
-            let (tracer, stop, checked, failures) = (tracer.clone(), stop.clone(), checked.clone(), failures.clone());
+            let (tracer, stop, checked, failures, floor) = (tracer.clone(), stop.clone(), checked.clone(), failures.clone(), floor.clone());
             sc.spawn(move || {
                 let mut spin = seed ^ r;
                 while !stop.load(Ordering::Relaxed) {
+                    let f = floor.load(Ordering::SeqCst);
                     let st = tracer.snapshot();
-                    if let Some(d) = check_snapshot(&st) {
+                    if let Some(d) = check_snapshot(&st, f) {
                         let mut f = failures.lock().unwrap();
                         if f.len() < 20 { f.push(d); }
                     }
@@ -107,11 +114,13 @@ pub fn run(rng: &mut Rng, thorough: bool, _corpus: &[String]) -> Run {
             });
         }
         {
-            let (tracer, stop, clears) = (tracer.clone(), stop.clone(), clears.clone());
+            let (tracer, stop, clears, applied, floor) = (tracer.clone(), stop.clone(), clears.clone(), applied.clone(), floor.clone());
             sc.spawn(move || {
                 let mut spin = seed ^ 0xabc;
                 while !stop.load(Ordering::Relaxed) {
+                    let a = applied.load(Ordering::SeqCst);
                     tracer.clear();
+                    floor.fetch_max(a, Ordering::SeqCst);
                     clears.fetch_add(1, Ordering::Relaxed);
                     spin = spin.wrapping_mul(6364136223846793005).wrapping_add(1);
                     for _ in 0..(spin % 200) { std::hint::spin_loop(); }
@@ -122,6 +131,7 @@ pub fn run(rng: &mut Rng, thorough: bool, _corpus: &[String]) -> Run {
         for k in 0..rounds {
             let probes = make_round(k);
             tracer.verif_apply_round(&Round::new(&probes, TimeToLive(HOPS), CompletionReason::TargetFound));
+            applied.store(k + 1, Ordering::SeqCst);
         }
         stop.store(true, Ordering::Relaxed);
     });
